@@ -10,6 +10,10 @@ TRUST = ("rustc 1.95.0 and its diagnostics, the std derives, the hand-written dx
 
 # id -> (technique, level text, design ref, level note)
 CHECKS = {
+    "C13": ("metamorphic execution: base programs vs consistently renamed / prelude-shadowed / no_std variants compiled with the real proc-macro; verdicts and event logs compared",
+            "Held on every (base, transformed) pair of the run, including a systematic sweep of every dictionary name in every role over "
+            "hand-picked rich base programs; the dictionary is harvested from the real expander's output at run time.",
+            "DESIGN.md §4 C13", "errors located outside derive_ex's output are treated as harness breakage (not judged); " + TRUST),
     "C04": ("where-clause atoms of in-process expansions vs the reference resolution at scale; every textual mismatch (and a sample) confirmed by trait-solver bits of compiled programs",
             "Held on every configuration expanded in the run (every level alone with every form, level pairs, random assignments); "
             "a compiled sample agrees behaviourally (probe_impl! with one-marker-missing instantiations).",
